@@ -177,7 +177,7 @@ theorem aligned_step {s s' : State} {op : Op} (hal : Aligned s) (h : step s op =
           · cases h
           · rename_i p1 c1 hr
             injection h with h; subst h
-            exact aligned_setSlot hal (aligned_assign hr (getD_aligned hal _ _ _ _))
+            exact aligned_setSlot hal (aligned_convertFrom hr (getD_aligned hal _ _ _ _))
   | xconv a b =>
     unfold step at h; simp only at h
     split at h
@@ -288,6 +288,19 @@ theorem aligned_step {s s' : State} {op : Op} (hal : Aligned s) (h : step s op =
                   · cases hr
                   · injection hr with hr; injection hr with e1 e2; subst e2
                     exact owned_aligned_of (alloc_alignedL _ _ _ _) (incrAll_aligned hinc)
+  | mk a kind dt it n v =>
+    unfold step at h; simp only at h
+    split at h
+    · cases h
+    · split at h
+      · injection h with h; subst h
+        exact aligned_setSlot hal (owned_aligned_of (alloc_alignedL _ _ _ _) AlignedL.nil)
+      · split at h
+        · injection h with h; subst h
+          exact aligned_setSlot hal (owned_aligned_of (alloc_alignedL _ _ _ _)
+            ((alloc_alignedL _ _ _ _).cons ((alloc_alignedL _ _ _ _).cons (alloc_alignedL _ _ _ _))))
+        · injection h with h; subst h
+          exact aligned_setSlot hal (owned_aligned_of (alloc_alignedL _ _ _ _) (alloc_alignedL _ _ _ _))
   | ldrop l =>
     unfold step at h; simp only at h
     split at h
